@@ -261,6 +261,16 @@ def harness_specs(palette=0):
     H["loop"] = NetSpec(1, (L(0, 0, 0, 3),), (), ())
     H["cycle_ramp"] = NetSpec(2, (L(0, 0, 1, 2), L(1, 1, 0, 1)), (OriginS(0, "ramp_out", C[0]),), ())
     H["srcramp"] = NetSpec(2, (L(0, 0, 1, 1, (0,)),), (OriginS(0, "ramp_out", C[0]),), (DestS(1, "free"),))
+    # every ramp kind also at an interior node (one entering link) and at a merge node (two entering links)
+    H["interior_ramps"] = NetSpec(4, (L(0, 0, 1, 2), L(1, 1, 2, 1), L(2, 2, 3, 2)),
+                                  (OriginS(0, "main", C[0]), OriginS(1, "ramp_in", C[1]), OriginS(2, "simp_unl", C[2])),
+                                  (DestS(3, "cong"),))
+    H["merge_ramp"] = NetSpec(4, (L(0, 0, 2, 2), L(1, 1, 2, 2), L(2, 2, 3, 3, (0, 2))),
+                              (OriginS(0, "ideal", C[0]), OriginS(1, "simp_lim", C[1]), OriginS(2, "simp_unl", C[2])),
+                              (DestS(3, "free"),))
+    # long links: more than 10 segments (and VSL signs on two-digit segment indices)
+    H["long"] = NetSpec(3, (L(0, 0, 1, 12, (0, 10, 11)), L(1, 1, 2, 11)), (OriginS(0, "main", C[0]), OriginS(1, "ramp_out", C[1])),
+                        (DestS(2, "cong"),))
     for k, s in H.items():
         assert spec_valid(s), k
     return H
